@@ -48,7 +48,12 @@ class ThrRun:
         else:
             self.path.add(self.npos + self.nneg >= 1)
         n0 = len(self.ex.obligs)
+        nlog = len(self.ex.prim_log)
+        nloc = len(self.ex.locals.get("_invert_increasing_function", []))
         self.outs = run_method(self.ex, "Scores", "threshold_at_" + metric, me, [self.r], {"method": method}, path=self.path)
+        self.plog = self.ex.prim_log[nlog:]
+        inv = self.ex.locals.get("_invert_increasing_function", [])[nloc:]
+        self.inv_env = inv[-1][0].env if inv and inv[-1] else None
         self.side = self.ex.obligs[n0:]
         self.live = [o for o in self.outs if not o.raised]
         self.ok = len(self.live) == 1 and len(self.outs) == 1
@@ -60,6 +65,56 @@ class ThrRun:
                 self.th = self.th.elem() if self.th.ndim == 0 else None
         # the array the function thresholds on (for the cnt facts): pos, neg, or the sorted concatenation
         self.P, self.N = me.attrs["pos"], me.attrs["neg"]
+
+    def roles(self):
+        """Ghost values of _invert_increasing_function identified by their *role* (parameters by position, the argument of the
+        single np.floor call, ...), not by the names of local variables, so that renaming locals or introducing temporaries does not
+        disturb the proofs.  KeyError when a role cannot be identified (the proof is then undecided, never a verdict)."""
+        from vf.engine import is_sym
+        from z3 import If
+        ex = self.ex
+        if self.inv_env is None:
+            raise KeyError("_invert_increasing_function was not called")
+        _, fn = ex.find("Scores", "_invert_increasing_function")
+        pn = [a.arg for a in fn.args.args if a.arg != "self"]
+        if len(pn) < 3:
+            raise KeyError("parameters of _invert_increasing_function")
+        env = self.inv_env
+        scores, rho, lc = env[pn[0]], env[pn[1]], env[pn[2]]
+        un0 = lambda v: v.elem() if isinstance(v, T) and v.ndim == 0 else v
+        fl = [e_ for e_ in self.plog if e_[0] == "np.floor" and str(e_[3]).endswith("_invert_increasing_function")]
+        ce = [e_ for e_ in self.plog if e_[0] == "np.ceil" and str(e_[3]).endswith("_invert_increasing_function")]
+        if len(fl) != 1:
+            raise KeyError(f"{len(fl)} np.floor calls in _invert_increasing_function")
+        target = un0(fl[0][1][0])
+        F = toR(un0(fl[0][2]))
+        # the right node: np.ceil of the same value if the code computes it that way, else by specification
+        Tr = toR(target)
+        from z3 import ToInt, ToReal
+        C = toR(un0(ce[0][2])) if len(ce) == 1 and toR(un0(ce[0][1][0])).get_id() == Tr.get_id() else If(ToReal(ToInt(Tr)) == Tr, ToReal(ToInt(Tr)), ToReal(ToInt(Tr)) + 1)
+        n = toI(scores.axes[0].size)
+        clip = lambda v: If(ToInt(v) > n - 1, If(n - 1 < 0, 0, n - 1), If(ToInt(v) < 0, 0, ToInt(v)))
+        li, ri, la = clip(F), clip(C), C - Tr
+        # prefer the code's own terms (syntactic abstraction in some proofs substitutes them): the two clipped indices are the
+        # results of the np.maximum calls; which is which is decided by evaluating them at target = 1/2, n = 10
+        import ast as _ast
+        from z3 import IntVal, RealVal, simplify, substitute, is_int_value
+        try:
+            cands = [toI(un0(e_[2])) for e_ in self.plog if e_[0] == "np.maximum" and str(e_[3]).endswith("_invert_increasing_function")]
+            found = {}
+            for c_ in cands:
+                v = simplify(substitute(c_, (Tr, RealVal("1/2")), (n, IntVal(10))))
+                if is_int_value(v) and v.as_long() in (0, 1):
+                    found.setdefault(v.as_long(), c_)
+            if len(cands) == 2 and set(found) == {0, 1}:
+                li, ri = found[0], found[1]
+            if len(ce) == 1:
+                la_code = ex.binop(_ast.Sub(), ce[0][2], fl[0][1][0])
+                la = toR(un0(la_code))
+        except Exception:
+            pass
+        return {"scores": scores, "target_ratio": un0(rho), "left_continuous": lc, "target": target, "la": la, "left_idx": li, "right_idx": ri,
+                "floor": F, "ceil": C}
 
     # ---- spec side -------------------------------------------------------------------------------------------
     def add_cnt_facts(self, path, th):
